@@ -189,8 +189,8 @@ def check(rep, F, tier, replay=None):
                     ok = True
                 if d["kind"] == "call" and "PartialOrd" in cal and any(x.startswith("call:") and x.split("@")[0].endswith("::zero") for a in d["args"] for x in a):
                     ok = True
-                if d["kind"] == "discr" and any("Sign" in x for x in d.get("of", [])):
-                    ok = True
+                if d["kind"] == "discr" and any("Sign" in x or x.split("@")[0].endswith(("::to_u64_digits", "::to_u32_digits", "::into_parts", "::sign", "::to_bytes_be", "::to_bytes_le")) for x in d.get("of", [])):
+                    ok = True  # a match on the Sign component (`(Sign::Minus, _) => None`)
             if not ok:
                 rep.violation("SIGN-gate", "BigInt::as_u64", "BigInt::as_u64 answers Some(..) on a path that never tests the sign: for a negative value whose magnitude fits into 64 bits it returns the magnitude (BigInt(-1).as_u64() = Some(1)) instead of None", {})
                 break
